@@ -1113,7 +1113,10 @@ impl<'tcx> Cx<'tcx> {
                         .put("ty", J::s(self.ty_s(sty)))
                         .put("span", J::s(span_str(tcx, tcx.def_span(d))))
                         .put("from_expansion", J::Bool(tcx.def_span(d).from_expansion()))
-                        .put("thread_local", J::Bool(tcx.is_thread_local_static(d))),
+                        .put("thread_local", J::Bool(tcx.is_thread_local_static(d)))
+                        .put("mutable", J::Bool(tcx.is_mutable_static(d)))
+                        // `Freeze` = no interior mutability: an immutable Freeze static is a plain constant table
+                        .put("freeze", J::Bool(sty.is_freeze(tcx, ty::TypingEnv::fully_monomorphized()))),
                 );
             }
         }
